@@ -256,9 +256,9 @@ func main() {
 		}
 		c.Rule("keys-v2: crypto.Keys vs the spec's sha256_a/sha256_b construction for auth keys {one-hot at each of the 256 byte positions x values {01,80}, zero, ff, count, 2 SHA-expanded} x " +
 			"msg keys {one-hot at each of 16 positions x {01,80}, zero, ff, count, sha} x both directions (x=0, x=8). " +
-			"msg-key-v2: crypto.MessageKey vs substr(SHA256(substr(auth_key,88+x,32)+plaintext),8,16): one-hot keys x plaintext lengths {0,1,16,55,56,64} and structured keys x every length 0..64 (thorough 0..1024) x patterns {zero,ff,count}, both directions. " +
+			"msg-key-v2: crypto.MessageKey vs substr(SHA256(substr(auth_key,88+x,32)+plaintext),8,16): one-hot keys x plaintext lengths {0,1,16,55,56,64} (thorough every length 0..128) and structured keys x every length 0..64 (thorough 0..1024) x patterns {zero,ff,count}, both directions. " +
 			"keys-v1: crypto.KeysV1 vs the MTProto 1.0 sha1_a..sha1_d construction with x=0 over the same key x msg-key sets. msg-key-v1: MessageKeyV1 vs SHA1(data)[4:20], lengths 0..128 (thorough 0..1024) x 3 patterns. " +
-			"bind-message: EncryptBindMessage for (msg_id, nonce, temp_auth_key_id, temp_session_id, expires_at) in {0,1,-1,min,max}^5 x random streams {00,FF,stream} x permanent key sha:c06-perm, " +
+			"bind-message: EncryptBindMessage for (msg_id, nonce, temp_auth_key_id, temp_session_id, expires_at) in {0,1,-1,min,max}^5 x random streams {00,FF,stream} x permanent key sha:c06-perm (thorough also count, ff, onehot:0:01), " +
 			"plus 7 structured permanent keys and perm_auth_key_id field values {real,0,-1}; decrypted by the reference only (KDF v1, AES-IGE): auth_key_id, msg_key = SHA1(unpadded)[4:20], msg_id, seq_no 0, length 40, padding <= 15, all five inner fields. " +
 			"Oracle: byte equality with the reference. distinct = distinct witnesses.")
 		c.Assume("reference KDF v2/v1, msg_key and AES-IGE in lib/refcrypto are transcriptions of the formulas in core.telegram.org/mtproto/description and description_v1; " +
@@ -288,8 +288,15 @@ func main() {
 		if c.Thorough() {
 			maxPlain, maxPlain1 = 1024, 1024
 		}
+		ohLens := []int{0, 1, 16, 55, 56, 64}
+		if c.Thorough() {
+			ohLens = nil
+			for n := 0; n <= 128; n++ {
+				ohLens = append(ohLens, n)
+			}
+		}
 		for _, k := range keys[:512] {
-			for _, n := range []int{0, 1, 16, 55, 56, 64} {
+			for _, n := range ohLens {
 				for s := 0; s < 2; s++ {
 					fMK.Eval(wMsgKey{k, n, "count", s})
 				}
@@ -309,13 +316,19 @@ func main() {
 				fMK1.Eval(wMsgKey1{n, p})
 			}
 		}
-		for _, r := range []string{"zero", "ff", "stream"} {
-			for _, id := range vals64 {
-				for _, nonce := range vals64 {
-					for _, tk := range vals64 {
-						for _, ts := range vals64 {
-							for _, e := range vals32 {
-								fBind.Eval(wBind{"sha:c06-perm", id, nonce, tk, "real", ts, e, r})
+		cubeKeys := []string{"sha:c06-perm"}
+		if c.Thorough() {
+			cubeKeys = []string{"sha:c06-perm", "count", "ff", "onehot:0:01"}
+		}
+		for _, ck := range cubeKeys {
+			for _, r := range []string{"zero", "ff", "stream"} {
+				for _, id := range vals64 {
+					for _, nonce := range vals64 {
+						for _, tk := range vals64 {
+							for _, ts := range vals64 {
+								for _, e := range vals32 {
+									fBind.Eval(wBind{ck, id, nonce, tk, "real", ts, e, r})
+								}
 							}
 						}
 					}
